@@ -128,6 +128,17 @@ def c02_cases(tier, rng):
         yield apply(n, e, cb)
     for (n, e), cb in rotate(shaped_inputs(tier), combos2, 3, rng):
         yield apply(n, e, cb)
+    # sizes OFF the binary grid (tenths, thirds, sevenths of the patterns' integers: 0.1, 12.7, 2/3 ...): a width that is
+    # padded and un-padded, converted to a centre and back, or summed up comes back as a neighbouring float64 - "exactly the
+    # configured width" is judged on the exact decomposition of the returned float64 (ExpSizeEx)
+    combos3 = grid(p1=K.P1S, p2=K.P2S, p4=K.P4_ALL, p5=["poly", "ortho", "straight", "noop", "splines"],
+                   size=["fixed", "all", "some", "fixed+some", "fixed+all"], pat=["het", "odd", "dec"], virt=[0, 1], sden=[10, 3, 7, 10], ns=[2, 7], nsd=[1, 4])
+    dec = random_inputs(rng, 1500 if tier == "quick" else 15000, 2, 10) + [(n, e) for n, e, _ in K.family("E33")]
+    for (n, e), cb in rotate(dec, combos3, 1, rng):
+        c = apply(n, e, cb)
+        if c.get("fixed"):
+            c["fixed"] = [127, 41] if cb["pat"] == "dec" else [1, 1]
+        yield c
 
 
 def c03_cases(tier, rng):
